@@ -18,6 +18,9 @@ for d in sorted(glob.glob(os.environ.get("SEED_ROOT", "/tmp/seeded_out") + "/C*/
     subprocess.run(["git", "-C", wt, "checkout", "-q", "--", "."], check=True)
     r = subprocess.run(["git", "-C", wt, "apply", d + "/patch.diff"], capture_output=True, text=True)
     if r.returncode != 0:
+        r = subprocess.run(["git", "-C", wt, "apply", "--3way", d + "/patch.diff"], capture_output=True, text=True)
+        subprocess.run(["git", "-C", wt, "reset", "-q"], check=False)
+    if r.returncode != 0:
         json.dump({"applies": False, "stderr": r.stderr[:400]}, open(d + "/confirm.json", "w"))
         print(d, "PATCH-FAIL")
         continue
